@@ -9,6 +9,7 @@ def runCase (hdr : List String) (ops : List String) : List String :=
   match hdr with
   | "ring" :: rest => runRingCase rest ops
   | "sync" :: rest => runSyncCase rest ops
+  | "synccap" :: rest => runCapCase rest ops
   | _ => "bad-op" :: ops.map fun _ => "bad-op"
 
 end Golib.C10
